@@ -2,3 +2,6 @@ import BalmProofs.Props.C14
 #print axioms Balm.Cache.history_fresh
 #print axioms Balm.Cache.step_fresh
 #print axioms Balm.Cache.unrepaired_skip_is_stale
+#print axioms Balm.Impl.mem_ownAttrs
+#print axioms Balm.Impl.attractors_sound
+#print axioms Balm.Impl.attractors_complete
